@@ -115,6 +115,31 @@ def straight_scripts():
     return out
 
 
+def skip_scripts():
+    """A cached frame that is NOT visited for several loops after a settings change (every other
+    frame is) and then visited: it must come out with the settings current at that time.  The
+    iterator may not assume that "the rest of this loop plus one full loop" revalidates every
+    cached frame - seeks can skip one for as long as they like."""
+    out = []
+    changes = [{"name": "set_render_size", "v": [3, 2]}, {"name": "set_frame_duration", "v": 70},
+               {"name": "set_render_args", "v": "a1"}, {"name": "set_padding", "v": {"kind": "exact", "l": 1, "t": 0, "r": 0, "b": 1}}]
+    nx = {"name": "next"}
+    for n in (3, 4):
+        for f in range(1, n - 1):
+            for loops in (-1, 6):
+                for ch in changes:
+                    for skipped_loops in (2, 3):
+                        ops = [nx] * n          # loop 1 fills the cache
+                        ops += [nx] * f + [ch, {"name": "seek", "off": f + 1, "whence": "START"}]
+                        ops += [nx] * (n - f - 1)                      # rest of loop 2 without f
+                        for _ in range(skipped_loops - 1):            # whole loops without f
+                            ops += [nx] * f + [{"name": "seek", "off": f + 1, "whence": "START"}] + [nx] * (n - f - 1)
+                        ops += [nx] * n                                # a loop that visits f again
+                        init = {"n": n, "k": 0, "loops": loops, "cache": {"kind": "bool", "b": True, "n": 0}, "own": "iter"}
+                        out.append((init, ops))
+    return out
+
+
 def record(rng: random.Random, pair: bool, script=None):
     """Run one random history on the real code; returns the trace record (or a direct
     violation tuple if the output cannot even be decoded)."""
@@ -231,7 +256,7 @@ def run(rep: Report, n_traces: int, pair: bool = False):
     rng = random.Random(rep.seed * 104729 + 8)
     groups: dict[tuple[int, int], list] = {}
     keep = []  # keep iterators' data alive so that id() stays unique within the batch
-    scripts = straight_scripts()
+    scripts = straight_scripts() + skip_scripts()
     rep.extra["straight_histories"] = len(scripts)
     for j in range(n_traces + len(scripts)):
         tr = record(rng, pair, scripts[j] if j < len(scripts) else None)
